@@ -226,6 +226,41 @@ func (m *monitor) fragment(tb *bo.TableBox, spec *tableSpec, cb float64, cbKnown
 				}
 			}
 		}
+		// evidence for the "percentage columns next to length columns" family (mixed.go):
+		// automatic layout, px or auto table width, every column sized, at least one by a
+		// percentage and at least one by a px width.
+		// "surplus" (px table width): the width to assign provably exceeds what the columns ask
+		// for (percentage shares of that width, max-content widths of the length columns and of
+		// the spanning cells), so a surplus had to be placed although no column is unsized;
+		// "pct_below_share" (observed, no floor): a percentage column ended narrower than its
+		// percentage of the assigned width, i.e. the percentages gave way to the lengths.
+		if !fixed && spec.WKind != "pct" && n == ref.NCols {
+			decls := columnDecls(spec, ref, n)
+			if mixed, _, _ := mixedShape(decls); mixed {
+				if spec.WKind == "auto" {
+					res.Count("fragments_mixed_constrained_auto_width", 1)
+				} else {
+					res.Count("fragments_mixed_constrained", 1)
+					assignable := tw - float64(n+1)*sx
+					bound, known := mixedMaxContentUpper(spec, ref, decls, assignable)
+					if known && assignable > bound+0.05 {
+						res.Count("mixed_constrained_surplus", 1)
+						if emptyOriginColumns(ref, n) > 0 {
+							res.Count("mixed_constrained_surplus_empty_origin", 1)
+						}
+						if ref.NCols >= 3 {
+							res.Count("mixed_constrained_surplus_3plus_columns", 1)
+						}
+					}
+					for i, d := range decls {
+						if d.eff > 0 && w[i] < d.eff/100*assignable-0.5 {
+							res.Count("mixed_constrained_pct_below_share", 1)
+							break
+						}
+					}
+				}
+			}
+		}
 	}
 
 	// ---- specified width ----------------------------------------------------------------
